@@ -1,6 +1,6 @@
 (* Dispatcher for the eval area (C13, C09, C07): executable entry points used
    by the correspondence checks (extracted to OCaml, also run by vm_compute). *)
-From FendV Require Import Base.Prelude Eval.Preview Eval.Calc Eval.CalcZ.
+From FendV Require Import Base.Prelude Eval.Preview Eval.Calc Eval.CalcZ Eval.Cost.
 Open Scope N_scope.
 
 (* history steps: ((tree k) ...), k < 0 = never interrupted *)
@@ -61,6 +61,31 @@ Definition run_eval : dispatcher := fun op args =>
              | Some e => Some (XL [XS (B"ok"); sx_N (nodes e)])
              | None => Some (XL [XS (B"unsupported")])
              end
+    | _ => Some sx_bad
+    end
+  (* minimal poll counts of the polled loops (C07 a) *)
+  else if opeq op "polls-pow" then
+    match args with
+    | [a; e] => match as_N a, as_N e with
+                | Some a', Some e' => Some (sx_N (pow_polls_of a' e'))
+                | _, _ => Some sx_bad end
+    | _ => Some sx_bad
+    end
+  else if opeq op "polls-factorial" then
+    match args with
+    | [n] => match as_N n with Some n' => Some (sx_N (factorial_polls_of n')) | None => Some sx_bad end
+    | _ => Some sx_bad
+    end
+  else if opeq op "polls-fib" then
+    match args with
+    | [n] => match as_N n with Some n' => Some (sx_N (fibonacci_polls_of n')) | None => Some sx_bad end
+    | _ => Some sx_bad
+    end
+  else if opeq op "polls-die" then
+    match args with
+    | [k; f] => match as_N k, as_N f with
+                | Some k', Some f' => Some (sx_N (new_die_polls_of k' f'))
+                | _, _ => Some sx_bad end
     | _ => Some sx_bad
     end
   else None.
